@@ -396,5 +396,12 @@ func GenProgLayout(t *rapid.T, tracks []Track) ProgLayout {
 	}
 	lay.MovieTimescale = rapid.SampledFrom([]uint32{1000, 600, 90000, 1, 12800}).Draw(t, "movieTimescale")
 	lay.HeaderV1 = rapid.IntRange(0, 4).Draw(t, "headerV1") == 0
+	extraKinds := []string{"mdat0", "mdat0", "free", "skip", "uuid", "zzzz"}
+	if rapid.IntRange(0, 4).Draw(t, "leadExtra") == 0 {
+		lay.Lead = rapid.SliceOfN(rapid.SampledFrom(extraKinds), 1, 2).Draw(t, "lead")
+	}
+	if rapid.IntRange(0, 3).Draw(t, "trailExtra") == 0 {
+		lay.Trail = rapid.SliceOfN(rapid.SampledFrom(extraKinds), 1, 2).Draw(t, "trail")
+	}
 	return lay
 }
